@@ -32,7 +32,7 @@ const SIM_ASSUMPTIONS: &[&str] = &[
 
 
 fn run_c01(ctx: &RunCtx) -> Vec<PartOutcome> {
-    mbchecks::run_spec(ctx, &mbchecks::C01, 6000, 100000)
+    mbchecks::run_spec(ctx, &mbchecks::C01, 12000, 600000)
 }
 fn replay_c01(part: &str, input: &Value) -> Option<Result<Result<(), Viol>, String>> {
     mbchecks::replay_spec(&mbchecks::C01, part, input)
@@ -60,7 +60,7 @@ fn replay_c09(part: &str, input: &Value) -> Option<Result<Result<(), Viol>, Stri
 }
 
 fn run_c10(ctx: &RunCtx) -> Vec<PartOutcome> {
-    mbchecks::run_spec(ctx, &mbchecks::C10, 8000, 150000)
+    mbchecks::run_spec(ctx, &mbchecks::C10, 20000, 800000)
 }
 fn replay_c10(part: &str, input: &Value) -> Option<Result<Result<(), Viol>, String>> {
     mbchecks::replay_spec(&mbchecks::C10, part, input)
